@@ -1952,6 +1952,10 @@ class Tensor:
         self.data.shape = newshape
         self.data.shape = old_shape
 
+        # like any in-place update, reshaping a tensor invalidates the gradient
+        # that it holds (which has the old shape)
+        self.null_grad()
+
         # create placeholders for self and all of its view-children
         graph = _dup.DuplicatingGraph(self)
         # need to iterate over all nodes now before we tinker
